@@ -796,6 +796,8 @@ func checkC08(ck *Check) {
 	ck.boundedEffectLoop("C08.R4", a.TaintLoop, "A-TAINT")
 	ck.actionTargets("C08.R2")
 	ck.nodeListImmutability("C08.R2")
+	// R5 the candidates are all the untainted nodes: the classifier withholds none
+	ck.classificationComplete("C08.R5")
 }
 
 // ---------------------------------------------------------------------------------------------
